@@ -263,7 +263,11 @@ pub struct FrontendCtx<'a, R: FileManager> {
 
     pub type_application_stack: Vec<(String, Runtype)>,
     jsdoc_cache_by_file: BTreeMap<BffFileName, JsdocFileCache>,
+    // nesting depth of extract_type / typeof_expr, to stop on declarations that refer to themselves
+    recursion_depth: usize,
 }
+
+const MAX_RECURSION_DEPTH: usize = 200;
 
 #[derive(Debug)]
 enum AddressedType {
@@ -1079,6 +1083,7 @@ impl<'a, R: FileManager> FrontendCtx<'a, R> {
             type_application_stack: vec![],
             recursive_generic_uuids: BTreeSet::new(),
             jsdoc_cache_by_file: BTreeMap::new(),
+            recursion_depth: 0,
         }
     }
 
@@ -2214,6 +2219,25 @@ impl<'a, R: FileManager> FrontendCtx<'a, R> {
     }
 
     pub fn typeof_expr(&mut self, e: &Expr, as_const: bool, file: BffFileName) -> Res<Runtype> {
+        if self.recursion_depth > MAX_RECURSION_DEPTH {
+            let anchor = Anchor {
+                f: file.clone(),
+                s: e.span(),
+            };
+            return self.error(
+                &anchor,
+                DiagnosticInfoMessage::AnyhowError(
+                    "value is nested too deeply or refers to itself".to_string(),
+                ),
+            );
+        }
+        self.recursion_depth += 1;
+        let res = self.typeof_expr_inner(e, as_const, file);
+        self.recursion_depth -= 1;
+        res
+    }
+
+    fn typeof_expr_inner(&mut self, e: &Expr, as_const: bool, file: BffFileName) -> Res<Runtype> {
         let anchor = Anchor {
             f: file.clone(),
             s: e.span(),
@@ -3347,7 +3371,22 @@ impl<'a, R: FileManager> FrontendCtx<'a, R> {
 
     fn extract_type(&mut self, ty: &TsType, file: BffFileName) -> Res<Runtype> {
         let span = ty.span();
-        let runtype = self.extract_type_inner(ty, file.clone())?;
+        if self.recursion_depth > MAX_RECURSION_DEPTH {
+            let anchor = Anchor {
+                f: file.clone(),
+                s: span,
+            };
+            return self.error(
+                &anchor,
+                DiagnosticInfoMessage::AnyhowError(
+                    "type is nested too deeply or refers to itself".to_string(),
+                ),
+            );
+        }
+        self.recursion_depth += 1;
+        let runtype = self.extract_type_inner(ty, file.clone());
+        self.recursion_depth -= 1;
+        let runtype = runtype?;
         Ok(self.with_jsdoc(&file, span, runtype))
     }
 
